@@ -55,7 +55,7 @@ fn my_tid() -> u32 {
     })
 }
 
-/// Contention mode: every call fails at once with this errno (0 = off) without taking the lock or logging; only the
+/// Contention mode: every call fails at once with this errno (0 = off; negative = every call succeeds at once) without taking the lock or logging; only the
 /// number of attempts and their byte total are counted. Used to make many threads hammer a sink's own bookkeeping.
 pub static FAST_FAIL_ERRNO: std::sync::atomic::AtomicI32 = std::sync::atomic::AtomicI32::new(0);
 pub static FAST_ATTEMPTS: std::sync::atomic::AtomicU64 = std::sync::atomic::AtomicU64::new(0);
@@ -69,6 +69,10 @@ pub unsafe extern "C" fn sendto(fd: i32, buf: *const u8, len: usize, flags: i32,
     if ff != 0 {
         FAST_ATTEMPTS.fetch_add(1, std::sync::atomic::Ordering::Relaxed);
         FAST_BYTES.fetch_add(len as u64, std::sync::atomic::Ordering::Relaxed);
+        if ff < 0 {
+            // "accepted by the kernel" without entering it (volume runs: gigabytes of datagrams in no time)
+            return len as isize;
+        }
         *__errno_location() = ff;
         return -1;
     }
